@@ -1131,9 +1131,12 @@ class StateEngine(object):
                 #print()
 
                 # If has_terminated acknowledge the event and don't add the
-                # id to the event_ids list
+                # id to the event_ids list. The event of a nested Map or
+                # Parallel state must be acknowledged here too, as returning
+                # True stops notify() before the state's own handler (which
+                # would otherwise have acknowledged it) is reached.
+                self.event_dispatcher.acknowledge(id)
                 if state_type != "Parallel" and state_type != "Map":
-                    self.event_dispatcher.acknowledge(id)
                     event_ids[index] = None
 
                 self.check_pending_results(execution_arn)
